@@ -123,6 +123,11 @@ ERROR_ARRAY_ACCESS_WITH_NONSCALAR = ErrorMessage(
 ERROR_ARRAY_ACCESS_WITH_NONINTEGER = ErrorMessage(
     2010, Severity.ERROR, """Array access requires an integer, got '{}'."""
 )
+ERROR_INVALID_AFFIX_OPERAND = ErrorMessage(
+    2012,
+    Severity.ERROR,
+    """'++' and '--' require a scalar variable, got '{}'.""",
+)
 ERROR_INVALID_CONSTRUCTOR_ARGUMENTS = ErrorMessage(
     2011,
     Severity.ERROR,
